@@ -361,46 +361,86 @@ func (p *Pool) Put(x any) {
 
 // ---------------------------------------------------------------- Map
 
+// Map keeps insertion order under the scheduler so that Range is deterministic.
 type Map struct {
-	real rsync.Map
-	h    hdr
+	real  rsync.Map
+	h     hdr
+	order []any
 }
+
+func (m *Map) reset() { m.order = nil }
 
 func (m *Map) pt(write bool, kind string) {
 	if vrt.Active() {
-		vrt.Point(m.h.obj("sync.Map", nil), write, kind, nil)
+		vrt.Point(m.h.obj("sync.Map", m.reset), write, kind, nil)
+	}
+}
+
+func (m *Map) noteStore(k any) {
+	if vrt.Cur() == nil {
+		return
+	}
+	if _, ok := m.real.Load(k); !ok {
+		m.order = append(m.order, k)
+	}
+}
+
+func (m *Map) noteDelete(k any) {
+	if vrt.Cur() == nil {
+		return
+	}
+	for i, x := range m.order {
+		if x == k {
+			m.order = append(m.order[:i:i], m.order[i+1:]...)
+			return
+		}
 	}
 }
 
 func (m *Map) Load(k any) (any, bool) { m.pt(false, "Map.Load"); return m.real.Load(k) }
-func (m *Map) Store(k, v any)         { m.pt(true, "Map.Store"); m.real.Store(k, v) }
-func (m *Map) Delete(k any)           { m.pt(true, "Map.Delete"); m.real.Delete(k) }
+func (m *Map) Store(k, v any)         { m.pt(true, "Map.Store"); m.noteStore(k); m.real.Store(k, v) }
+func (m *Map) Delete(k any)           { m.pt(true, "Map.Delete"); m.noteDelete(k); m.real.Delete(k) }
 func (m *Map) LoadOrStore(k, v any) (any, bool) {
 	m.pt(true, "Map.LoadOrStore")
+	m.noteStore(k)
 	return m.real.LoadOrStore(k, v)
 }
 func (m *Map) LoadAndDelete(k any) (any, bool) {
 	m.pt(true, "Map.LoadAndDelete")
+	m.noteDelete(k)
 	return m.real.LoadAndDelete(k)
 }
-func (m *Map) Swap(k, v any) (any, bool) { m.pt(true, "Map.Swap"); return m.real.Swap(k, v) }
+func (m *Map) Swap(k, v any) (any, bool) {
+	m.pt(true, "Map.Swap")
+	m.noteStore(k)
+	return m.real.Swap(k, v)
+}
 func (m *Map) CompareAndSwap(k, o, n any) bool {
 	m.pt(true, "Map.CAS")
 	return m.real.CompareAndSwap(k, o, n)
 }
 func (m *Map) CompareAndDelete(k, o any) bool {
 	m.pt(true, "Map.CAD")
-	return m.real.CompareAndDelete(k, o)
+	if m.real.CompareAndDelete(k, o) {
+		m.noteDelete(k)
+		return true
+	}
+	return false
 }
-func (m *Map) Clear() { m.pt(true, "Map.Clear"); m.real.Clear() }
+func (m *Map) Clear() { m.pt(true, "Map.Clear"); m.order = nil; m.real.Clear() }
 func (m *Map) Range(f func(k, v any) bool) {
 	m.pt(false, "Map.Range")
-	// snapshot first so that the iteration order seen by f is deterministic-ish and f may mutate
-	type kv struct{ k, v any }
-	var all []kv
-	m.real.Range(func(k, v any) bool { all = append(all, kv{k, v}); return true })
-	for _, e := range all {
-		if !f(e.k, e.v) {
+	if vrt.Cur() == nil {
+		m.real.Range(f)
+		return
+	}
+	keys := append([]any{}, m.order...)
+	for _, k := range keys {
+		v, ok := m.real.Load(k)
+		if !ok {
+			continue
+		}
+		if !f(k, v) {
 			break
 		}
 	}
